@@ -46,8 +46,12 @@ impl<'n> TryFromNode<'n> for Field {
         } else {
             node.attribute("minOccurs") == Some("0") || parent_is_optional
         };
-        let parent_is_vec = node.parent().and_then(|n| n.attribute("maxOccurs")) == Some("unbounded");
-        let is_vec = Node::attribute(&node, "maxOccurs") == Some("unbounded") || parent_is_vec;
+        // an element may repeat when maxOccurs is unbounded or any number above one
+        let repeats = |max_occurs: Option<&str>| {
+            max_occurs.is_some_and(|m| m == "unbounded" || m.parse::<u64>().is_ok_and(|n| n > 1))
+        };
+        let parent_is_vec = repeats(node.parent().and_then(|n| n.attribute("maxOccurs")));
+        let is_vec = repeats(Node::attribute(&node, "maxOccurs")) || parent_is_vec;
         let is_choice = node.parent().is_some_and(|n| n.tag_name().name() == "choice");
 
         // check if this is an any type
